@@ -8,7 +8,7 @@ const verifOn = false
 
 func verifPool(ev string, p *pp) {}
 
-func verifMode(p *pp, ev string, m0, o0 int) {}
+func verifMode(p *pp, ev string) {}
 
 func verifArg(p *pp) func() { return nil }
 
